@@ -285,11 +285,12 @@ def r3(ctx):
                 key=gp.full + ' | differences')
     an = repo.func('hotspot', 'analyze')
     hc = find_all('subf[typ] = subf[typ][:, :, :dT.shape[1]]', an.node, 'stmt')
-    hk = find_all('dT = _get_peak_dt(r_obj, asm_name, k)', an.node, 'stmt')
+    # (which rises `dT` holds is decided on values by C19.R8,
+    # rules/_f_c19.py: the whole result of _get_peak_dt(r_obj, asm_name, k))
     # (keyword arguments are normalised to positional by the loader)
     hs = find_all("calculate_temps(r_obj.inlet_temp, dT, subf, "
                   "hs[k]['input_sigma'], hs[k]['output_sigma'])", an.node)
-    ctx.require(bool(hc and hk and hs), 'C19.R3', an,
+    ctx.require(bool(hc and hs), 'C19.R3', an,
                 hs[0][0] if hs else an.node,
                 'analysis must use the rises of the same key, crop the '
                 'subfactors to the rise count and pass the input/output '
